@@ -627,6 +627,63 @@ Proof.
   - exists 100, 20, 2147483647%Z, 10%Z, site_copy_len. unfold is_i32. vm_compute. repeat split; congruence.
 Qed.
 
+(* ================================================================== column chunk fetch (reader.rs) *)
+Theorem fetch_chunk_safe_checked file_size start len :
+  out_clean (p_out (fetch_chunk true file_size start len)) /\ p_alloc (fetch_chunk true file_size start len) <= file_size.
+Proof.
+  unfold fetch_chunk. cbn [andb].
+  destruct ((2 ^ 64 <=? start + len) || (file_size <? start + len)) eqn:E.
+  - cbn [p_out p_alloc]. split; [right; reflexivity|lia].
+  - assert (H : start + len <= file_size) by lia.
+    destruct (2 ^ 63 <=? len); [cbn [p_out p_alloc]; split; [right; reflexivity|lia]|].
+    destruct (file_size <? start + len) eqn:E2; [lia|].
+    cbn [p_out p_alloc]. split; [left; eexists; reflexivity|lia].
+Qed.
+
+(* before f3bd995b4: a 227 byte file whose footer puts a 27 byte chunk at offset 2^31-1 never finishes,
+   a chunk length of 2^62 is allocated *)
+Lemma fetch_chunk_witnesses :
+  fetch_chunk false 227 2147483647 27 = mk_paged TFuel 27 /\
+  fetch_chunk false 227 69 4611686018427387904 = mk_paged TFuel 4611686018427387904 /\
+  fetch_chunk true 227 2147483647 27 = mk_paged TErr 0 /\
+  fetch_chunk true 227 69 4611686018427387904 = mk_paged TErr 0 /\
+  fetch_chunk true 227 69 27 = mk_paged (TOk 27) 27.
+Proof. vm_compute. repeat split; reflexivity. Qed.
+
+Theorem fetch_chunk_verdict_current :
+  exists b, TablesFault.chunk_range_checked = Some b /\
+    (if b
+     then forall file_size start len, out_clean (p_out (fetch_chunk b file_size start len)) /\
+                                      p_alloc (fetch_chunk b file_size start len) <= file_size
+     else exists file_size start len, p_out (fetch_chunk b file_size start len) = TFuel).
+Proof.
+  destruct TablesFault.chunk_range_checked as [b|] eqn:E; [|discriminate E || fail].
+  exists b. split; [reflexivity|]. destruct b.
+  - intros. apply fetch_chunk_safe_checked.
+  - exists 227, 2147483647, 27. vm_compute. reflexivity.
+Qed.
+
+(* the source as scanned has the page-size and chunk-range checks (after f3bd995b4): safe side outright *)
+Theorem page_and_chunk_checks_present :
+  TablesFault.page_copy_len_checked = Some true /\ TablesFault.chunk_range_checked = Some true.
+Proof. split; reflexivity. Qed.
+
+Theorem page_load_safe_current :
+  exists b, TablesFault.page_copy_len_checked = Some b /\
+    forall chunk_len off usz csz, is_i32 usz -> is_i32 csz -> chunk_len < 2 ^ 64 ->
+      out_clean (p_out (load_page_plain b chunk_len off usz csz)) /\ p_alloc (load_page_plain b chunk_len off usz csz) <= chunk_len.
+Proof.
+  exists true. split; [reflexivity|]. intros. apply page_load_safe_checked; assumption.
+Qed.
+
+Theorem fetch_chunk_safe_current :
+  exists b, TablesFault.chunk_range_checked = Some b /\
+    forall file_size start len, out_clean (p_out (fetch_chunk b file_size start len)) /\
+                                p_alloc (fetch_chunk b file_size start len) <= file_size.
+Proof.
+  exists true. split; [reflexivity|]. intros. apply fetch_chunk_safe_checked.
+Qed.
+
 (* source constants *)
 Theorem footer_constants :
   exists fs mn, TablesFault.footer_size = Some fs /\ TablesFault.min_file_size = Some mn /\
@@ -670,7 +727,6 @@ Qed.
 Theorem vlq_decode_no_panic bs : vlq_decode bs <> Panic.
 Proof. apply vlq_dec_no_panic. Qed.
 
-(* bit_unpack: the only panic is the mask table index for a width above 64 *)
 Lemma unpack_val_no_panic : forall fuel buf pos need off value, unpack_val fuel buf pos need off value <> Panic.
 Proof.
   induction fuel as [|f IH]; intros buf pos need off value; cbn [unpack_val].
@@ -689,14 +745,16 @@ Proof.
   - exfalso. eapply unpack_val_no_panic; eauto.
 Qed.
 
-Theorem bit_unpack_panic_iff tw w n buf pos : bit_unpack tw w n buf pos = Panic <-> 64 < w.
+(* bit_unpack: a width above 64 is an error (repair 72f92a6f7; before it indexed the mask table out of bounds) *)
+Theorem bit_unpack_no_panic tw w n buf pos : bit_unpack tw w n buf pos <> Panic.
 Proof.
-  unfold bit_unpack. destruct (64 <? w) eqn:E.
-  - split; [intros _; lia|reflexivity].
-  - split; [|lia]. destruct (w =? 0); [discriminate|]. intros H. exfalso. eapply unpack_n_no_panic; eauto.
+  unfold bit_unpack. destruct (64 <? w); [discriminate|].
+  destruct (w =? 0); [discriminate|]. apply unpack_n_no_panic.
 Qed.
 
-(* RLE / bit-packed hybrid: no panic for a width up to 64 (RleBitPackedDecoder::new asserts it) *)
+Theorem bit_unpack_wide_err tw w n buf pos : 64 < w -> bit_unpack tw w n buf pos = Err.
+Proof. intros H. unfold bit_unpack. destruct (64 <? w) eqn:E; [reflexivity|lia]. Qed.
+
 Lemma take_bytes_no_panic : forall k buf, take_bytes k buf <> Panic.
 Proof.
   induction k as [|k IHk]; intros buf; cbn [take_bytes]; [discriminate|].
@@ -726,7 +784,7 @@ Proof.
       cbn [bind]; try discriminate.
     - match goal with |- context [rle_go tw f ?a ?b] => destruct (rle_go tw f a b) as [[vs s2]| | |] eqn:E2 end;
         cbn [bind]; try discriminate. exfalso. eapply IH; [|exact E2]. exact Hw.
-    - apply bit_unpack_panic_iff in E. lia. }
+    - exfalso. eapply bit_unpack_no_panic; eauto. }
   destruct (rle_read_next s) as [s1| | |] eqn:E; cbn [bind]; try discriminate.
   - apply IH. unfold rle_read_next in E. destruct (negb (r_pos s =? 0)); [discriminate|].
     destruct (vlq_decode (r_buf s)) as [[ind b1]| | |]; cbn [bind] in E; try discriminate.
@@ -745,7 +803,7 @@ Definition w_oob_vlq : list N := [128].                 (* continuation bit, the
 Definition w_oob_rle : list N := [2].                   (* RLE run of 1 value, width 8, value byte missing *)
 Definition w_oob_unpack : list N := [255].              (* 8 bits for two values of width 5 *)
 Definition w_oob_dbp : list N := [128; 1; 4; 5; 2].     (* block 128, 4 miniblocks, 5 values, first 1: no block *)
-Definition w_panic_dbp : list N := [128; 1; 0; 5; 2].   (* miniblock count 0: block_size / 0 *)
+Definition w_panic_dbp : list N := [128; 1; 0; 5; 2].   (* miniblock count 0: block_size / 0 before 20ef7d280, an error now *)
 
 Lemma w_oob_vlq_oob : vlq_decode w_oob_vlq = OOB.
 Proof. reflexivity. Qed.
@@ -755,9 +813,9 @@ Lemma w_oob_unpack_oob : bit_unpack 8 5 2 w_oob_unpack 0 = OOB.
 Proof. vm_compute. reflexivity. Qed.
 Lemma w_oob_dbp_oob : dbp_decode_split 32 w_oob_dbp [5%nat] = OOB.
 Proof. vm_compute. reflexivity. Qed.
-Lemma w_panic_dbp_panics : dbp_decode_split 32 w_panic_dbp [5%nat] = Panic.
+Lemma w_panic_dbp_panics : dbp_decode_split 32 w_panic_dbp [5%nat] = Err.
 Proof. vm_compute. reflexivity. Qed.
-Lemma w_panic_width : bit_unpack 8 65 1 [1; 2; 3; 4; 5; 6; 7; 8; 9] 0 = Panic.
+Lemma w_panic_width : bit_unpack 8 65 1 [1; 2; 3; 4; 5; 6; 7; 8; 9] 0 = Err.
 Proof. reflexivity. Qed.
 
 (* full strength statement for the three helpers and its refutation *)
